@@ -169,12 +169,40 @@ def expand(arg):
     return res
 
 
-def explore(ctx, kind, mode, depth, ordered, tier, max_states=None, label=""):
-    """level-synchronous BFS; returns stats dict"""
-    seen = {canon(snap(OPS.real_cls(kind)()), ordered)}
-    frontier = [[]]
+def roots(kind):
+    """non-initial start states (name, history): the BFS from the empty graph needs 5+ calls before the first descriptor
+    can exist, so the states around descriptors and stereo changes are explored from these roots as well"""
+    cfg = OPS.config(kind, "quick")
+    base = [["add_atom", a, "C"] for a in cfg["ids"]] + [["add_bond", a, b] for a, b in cfg["pairs"]]
+    out = []
+    if kind in (RG.CRG, RG.SCRG):
+        (a, b), (c, d) = cfg["pairs"][0], cfg["pairs"][1]
+        roles = [["add_atom", x, "C"] for x in cfg["ids"]] + [["add_bond", a, b, {"kw": {"reaction": "Change.FORMED"}}],
+                                                                ["add_bond", c, d, {"kw": {"reaction": "Change.BROKEN"}}]]
+        out.append(("roles", roles))
+    if kind in (RG.SMG, RG.SCRG):
+        t1, t2, t3, sp = cfg["adesc"]
+        pb, ab = cfg["bdesc"]
+        out.append(("skeleton", base))
+        out.append(("stereo", base + [["set_atom_stereo", t1], ["set_bond_stereo", pb]]))
+    if kind == RG.SCRG:
+        out.append(("changes", base + [["set_atom_stereo_change", {"kw": {"broken": t1, "formed": t2}}],
+                                       ["set_bond_stereo_change", {"kw": {"formed": pb}}]]))
+        out.append(("stereo+changes", base + [["set_atom_stereo", sp], ["set_atom_stereo_change", {"kw": {"fleeting": t1}}],
+                                              ["set_bond_stereo_change", {"kw": {"broken": pb, "fleeting": D3}}]]))
+    return out
+
+
+D3 = OPS.D("PlanarBond", (3, None, 0, 1, 2, None), 0)
+
+
+def explore(ctx, kind, mode, depth, ordered, tier, max_states=None, label="", root=None):
+    """level-synchronous BFS from the empty graph (or from the state reached by the history `root`); returns stats dict"""
+    root = list(root or [])
+    seen = {canon(snap(replay_history(kind, root)[0]), ordered)}
+    frontier = [root]
     stats = {"kind": kind, "pass": "B-ordered" if ordered else "A-unordered", "levels": [], "fixpoint": False,
-             "depth_bound": depth}
+             "depth_bound": depth, "root": root}
     d = 0
     sample_hist = None
     while frontier and d < depth:
